@@ -56,6 +56,7 @@ static LongWord AVRLen;
 static Boolean RelAdr;
 
 static unsigned FormatOccured;
+static unsigned MOSRecCnt;
 
 enum {
     eMotoOccured  = (1 << 0),
@@ -476,7 +477,8 @@ static void ProcessFile(char const* FileName, LongWord Offset) {
                         errno = 0;
                         fprintf(TargFile, ";%02X%04X", Lo(TransLen), LoWord(ErgStart));
                         ChkIO(TargName);
-                        ChkSum += TransLen + Lo(ErgStart) + Hi(ErgStart);
+                        ChkSum = TransLen + Lo(ErgStart) + Hi(ErgStart);
+                        MOSRecCnt++;
                         break;
                     case eHexFormatIntel:
                     case eHexFormatIntel16:
@@ -1353,7 +1355,8 @@ int main(int argc, char** argv) {
 
     if (FormatOccured & eMOSOccured) {
         errno = 0;
-        fprintf(TargFile, ";0000040004\n");
+        fprintf(TargFile, ";00%04X%04X\n", LoWord(MOSRecCnt),
+                LoWord(Hi(MOSRecCnt) + Lo(MOSRecCnt)));
         ChkIO(TargName);
     }
 
